@@ -81,11 +81,11 @@ def run(ctx):
         progs += tlc_programs(ctx, 'three-nodes', 'Programs({"L", "P", "S"}, 3, 3, 2, {FALSE})')
     ctx.notes['deviations_detected_by'] = vacuity(ctx, 'Programs({"L", "P"}, 1, 2, 2, {FALSE})')
     ctx.notes['programs_enumerated'] = len(progs)
-    sel = select(ctx, progs, 450 if tier == 'quick' else 12000)
+    sel = select(ctx, progs, 450 if tier == 'quick' else 6000)
     # edges whose template reads a second variable given as a path (w * (source - x_ref))
     refs = tlc_programs(ctx, 'ref-edges', 'RefProgs({3}, {<<"L">>, <<"L", "S">>})' if tier == 'quick' else 'RefProgs({3, 4}, {<<"L">>, <<"L", "S">>})', workers=8)
     random.Random(ctx.seed + 1).shuffle(refs)
-    sel += refs[:150 if tier == 'quick' else 4000]
+    sel += refs[:150 if tier == 'quick' else 1500]
     jobs = []
     skipped = dict(d42=0, d43=0)
     for k, p in enumerate(sel):
